@@ -88,7 +88,7 @@ class GenerateNames:
         return {"*": True}
 
 
-@contract(MR + ".fix_name_duplicates", props=["C03", "C11"])
+@contract(MR + ".fix_name_duplicates", props=["C03", "C11", "C01", "C12"])
 class FixNameDuplicates:
     """C03/C11 (class names unique): walking the models in registration order, a model whose name was already used by an earlier
     model is renamed to <name>_<index> and marked generated; every other model keeps its name."""
